@@ -22,7 +22,7 @@ class Counted:
     def __init__(self, rng, neq, i):
         self.a, self.b, self.c, self.w = (float(np.round(rng.uniform(-1, 1), 3)) for _ in range(4))
         self.k = int(rng.integers(neq)); self.i = i; self.calls = 0
-        self.mode = str(rng.choice(["fresh", "fresh", "stored", "state"])); self.table = None
+        self.mode = str(rng.choice(["fresh", "fresh", "stored", "state", "scalar", "scalar0d", "list"])); self.table = None
 
     def __call__(self, x, q):
         self.calls += 1
@@ -33,9 +33,19 @@ class Counted:
             return self.table
         if self.mode == "state":           # a component of the state handed back directly (aliases the caller's array)
             return q[self.k]
+        if self.mode == "scalar":          # a uniform source written as one python number (friction, gravity)
+            return self.a
+        if self.mode == "scalar0d":        # ... or as a numpy scalar / 0-d array
+            return np.float64(self.a) if self.k % 2 else np.array(self.a)
+        if self.mode == "list":            # ... or as a plain python list, one value per cell
+            return [float(v) for v in self.a * np.sin(self.w * np.asarray(x))]
         return self.value(x, q)
 
     def expected(self, x, q):
+        if self.mode in ("scalar", "scalar0d"):
+            return np.full(np.shape(x), self.a)
+        if self.mode == "list":
+            return self.a * np.sin(self.w * np.asarray(x))
         if self.mode == "stored":
             return self.a * np.sin(self.w * x) + self.c * x
         if self.mode == "state":
@@ -53,6 +63,8 @@ class Counted:
             return "stored array %g*sin(%g x)+%g*x (same object returned at every call)" % (self.a, self.w, self.c)
         if self.mode == "state":
             return "returns Q[%d] itself" % self.k
+        if self.mode in ("scalar", "scalar0d", "list"):
+            return {"scalar": "python float %g", "scalar0d": "numpy scalar / 0-d array %g", "list": "python list %g*sin(w x)"}[self.mode] % self.a
         return "%g*sin(%g x)+%g*Q[%d]+%g*Q[0]*x" % (self.a, self.w, self.b, self.k, self.c)
 
 
